@@ -2,7 +2,7 @@
    (PolicyRef.endpoint_verdict: tiers in order, Pass moves on, then the profiles), domains, oracle, cases. *)
 From Coq Require Import List NArith Bool Arith.
 From Verif.Common Require Import Packet PolicyRef.
-From Verif.C30 Require Import Model Spec EndModel.
+From Verif.C30 Require Import Model Spec EndModel HistModel HistSpec.
 Import ListNotations.
 Open Scope N_scope.
 
@@ -137,9 +137,9 @@ Definition check_pcase (c : pcase) : bool * bool :=
   (hrules_eqb (rewrite_priorities (p_limit c) (p_in c)) (p_impl c),
    Nat.leb (length (p_impl c)) 1 || prio_chain (p_impl c)).
 
-Inductive anycase2 := Old (c : anycase) | EpCase (c : ecase) | PrioCase (c : pcase).
+Inductive anycase2 := Old (c : anycase) | EpCase (c : ecase) | PrioCase (c : pcase) | HistCase (c : hcase).
 Definition check_all (c : anycase2) : bool * bool :=
-  match c with Old c => check_any c | EpCase c => check_ecase c | PrioCase c => check_pcase c end.
+  match c with Old c => check_any c | EpCase c => check_ecase c | PrioCase c => check_pcase c | HistCase c => check_hcase c end.
 
 (* every CIDR of the per-tier lists is well formed (length <= 32).  Implied by wf inputs (wf_cidr4 / wf_sets: the
    lists only hold input CIDRs, set members and IntersectCIDRs outputs); checked rather than derived. *)
